@@ -96,10 +96,11 @@ class Reporter:
             print('VIOLATION property=%s replay=%s' % (self.prop, path))
             print('  rule=%s key=%s' % (o.rule, o.key))
             print('  at %s: %s' % (o.loc, o.what))
-            if o.detail:
-                print('  ' + o.detail)
-            if o.witness:
-                print('  witness: ' + json.dumps(o.witness)[:600])
+            if i < 12:
+                if o.detail:
+                    print('  ' + o.detail[:700])
+                if o.witness:
+                    print('  witness: ' + json.dumps(o.witness)[:400])
         by_status = {}
         for o in self.obls:
             by_status[o.status] = by_status.get(o.status, 0) + 1
